@@ -775,27 +775,33 @@ void prop(Src& s, Ctx& ctx) {
         }
     }
     if (s.chance(6)) { evs.insert(evs.begin() + s.pick(evs.size() + 1), Ev{Ev::CLEAR, 0, 0}); ctx.label("op:clear_streams"); }
-    int reversed_remove = -1;
     if (s.chance(3)) {
         // remove_stream(id, destination, source): per the documentation this names a different datagram; libtins' unordered key
         // makes it hit the stream of source->destination (same root cause as finding #18) -> that datagram is in the twin class
         int di = (int)s.pick(nd);
         if (ds[di].frags.size() > 1 && memcmp(ds[di].src, ds[di].dst, 4) != 0) {
-            reversed_remove = di;
             evs.insert(evs.begin() + s.pick(evs.size() + 1), Ev{Ev::REMOVE_REVERSED, di, 0});
             ctx.label("op:remove_stream-reversed-arguments");
         }
     }
-    // reversed-direction class (finding #18): fragmented datagrams with the same id and the same UNORDERED address pair but different
-    // (source, destination); also everything that shares the unordered key with the target of a reversed remove_stream
-    auto same_unordered = [](const Dgram& a, const Dgram& b) {
-        return a.id == b.id && ((memcmp(a.src, b.src, 4) == 0 && memcmp(a.dst, b.dst, 4) == 0) || (memcmp(a.src, b.dst, 4) == 0 && memcmp(a.dst, b.src, 4) == 0));
-    };
-    for (size_t i = 0; i < ds.size(); ++i) {
-        if (ds[i].frags.size() < 2) continue;
-        if (reversed_remove >= 0 && same_unordered(ds[i], ds[reversed_remove])) ds[i].twin = true;
-        for (size_t j = 0; j < ds.size(); ++j)
-            if (j != i && ds[j].frags.size() > 1 && same_unordered(ds[i], ds[j]) && !(key_of(ds[i]) == key_of(ds[j]))) ds[i].twin = true;
+    // reversed-direction class (finding #18): a fragmented datagram is in it when some other key that this case touches (another
+    // fragmented datagram, or the arguments of a remove_stream() call) has the same id and the same UNORDERED address pair but a
+    // different (source, destination)
+    {
+        std::vector<Key> touched;
+        for (const Dgram& d : ds) if (d.frags.size() > 1) touched.push_back(key_of(d));
+        for (const Ev& e : evs) {
+            Key k = key_of(ds[e.dg]);
+            if (e.t == Ev::REMOVE) touched.push_back(k);
+            else if (e.t == Ev::REMOVE_OTHER_ID) touched.push_back(Key{(uint16_t)(k.id ^ 0x0100), k.src, k.dst});
+            else if (e.t == Ev::REMOVE_REVERSED) touched.push_back(Key{k.id, k.dst, k.src});
+        }
+        for (Dgram& d : ds) {
+            if (d.frags.size() < 2) continue;
+            Key k = key_of(d);
+            for (const Key& t : touched)
+                if (t.id == k.id && t.src == k.dst && t.dst == k.src && !(t == k)) d.twin = true;
+        }
     }
     // a key is re-used by a different datagram only when nothing of its predecessor is left in the reassembler: where the schedule
     // leaves a residue (stray duplicates, an incomplete set, a clear_streams() in between) the abandoned stream is removed first
@@ -970,10 +976,7 @@ void prop(Src& s, Ctx& ctx) {
             os << "event " << n_events << "/" << evs.size() << ": datagram #" << e.dg << " (" << d.desc << "; " << plans[e.dg] << ") fragment " << e.fi << " [" << f.off << ","
                << f.off + f.len << ") mf=" << f.mf << (is_dup ? " duplicate" : "") << ": process() = " << status_name(got) << ", reference = " << status_name(want.status);
             ctx.report(sig(specific), os.str());
-            // libtins and the model no longer agree on what is buffered for this key: re-synchronise by dropping it on both sides
-            reasm.remove_stream(d.id, tins_addr(d.src), tins_addr(d.dst));
-            ref.remove(key_of(d));
-            continue;
+            continue;  // only reached for an open finding (twin class): the model goes on as specified, every later difference is counted
         }
         if (got == IPv4Reassembler::NOT_FRAGMENTED) {
             // left untouched
